@@ -2,10 +2,10 @@ package main
 
 import (
 	"fmt"
-	"os"
 	"go/ast"
 	"go/token"
 	"go/types"
+	"os"
 	"sort"
 	"strings"
 
@@ -16,9 +16,9 @@ var itemFields = []string{"B", "BOOL", "BS", "L", "M", "N", "NS", "NULL", "S", "
 
 func init() {
 	register(&Prop{
-		ID:    "C10",
-		Title: "Attribute values survive a write/read round trip unchanged",
-		Decided: "every conversion on the write/read path is total over the ten attribute types and discriminates by presence, not by emptiness: (R1) the v2 SDK→internal conversion has a case for every implementer of the SDK's AttributeValue union (enumerated from the SDK package through go/types) and maps member X to field X; (R2) the v2 internal→SDK conversion and the interpreter's MapToObject have a branch per field of types.Item whose presence test is `F != nil`, never `len(F) != 0` (an empty list, map or binary is a value; for the three set types emptiness tests are accepted because DynamoDB has no empty sets); (R3) the four v1 conversions set all ten fields, each from the same-named source field; (R4) each interpreter object's ToDynamoDB sets exactly the field named like the type tag its Type() returns; (R5) the item-copy helpers and the interpreter's working copies copy every entry unconditionally.",
+		ID:         "C10",
+		Title:      "Attribute values survive a write/read round trip unchanged",
+		Decided:    "every conversion on the write/read path is total over the ten attribute types and discriminates by presence, not by emptiness: (R1) the v2 SDK→internal conversion has a case for every implementer of the SDK's AttributeValue union (enumerated from the SDK package through go/types) and maps member X to field X; (R2) the v2 internal→SDK conversion and the interpreter's MapToObject have a branch per field of types.Item whose presence test is `F != nil`, never `len(F) != 0` (an empty list, map or binary is a value; for the three set types emptiness tests are accepted because DynamoDB has no empty sets); (R3) the four v1 conversions set all ten fields, each from the same-named source field; (R4) each interpreter object's ToDynamoDB sets exactly the field named like the type tag its Type() returns; (R5) the item-copy helpers and the interpreter's working copies copy every entry unconditionally.",
 		NotDecided: "numeric notation and precision (C12), set/element equality, nesting depth, and fidelity of values inside each branch (value-level).",
 		Rules: []RuleDef{
 			{ID: "R1", Desc: "v2 SDK→internal: exhaustive over the SDK union, member X ↦ field X (T-TABLE)", Run: c10R1},
